@@ -1,5 +1,5 @@
 target('c20_chanmap', 'engines/comp/c20_chanmap.cpp', extra_src=['$REPO/bluetoe/link_layer/channel_map.cpp'],
-       quick=dict(cases=60000, size=100), thorough=dict(cases=2000000, size=150))
+       quick=dict(cases=240000, size=100), thorough=dict(cases=2000000, size=150))
 prop('C20', ['c20_chanmap'], 'comp',
      rule='rapidcheck generates sequences of reset(map,hop) / reset(map) / data_channel queries: 40 bit maps with the number of used '
           'channels uniform over 0..37 (random subsets, random RFU bits) plus raw random and two-channel maps, hops 0..31 and a few '
